@@ -13,7 +13,8 @@ THEOREMS = ["lex_total", "string_decode", "decode_spec", "positions_exact", "lon
             "layout_irrelevant", "relayout", "tokens_tile_the_source", "comment_is_a_token", "comment_after_keyword_kept",
             "filtered_stream_independent_of_keyword_lookahead"]
 MULTI = ["==", "=>", ">=", "<=", "..", "::", "&&", "||", "%%", "!=", "!~"]
-SAMPLES = ["x", "foo-bar", "a1", "index", "lets", "1", "42", '"s"', '""', '"a b"', "true", "false", "NULL"]
+SAMPLES = ["x", "foo-bar", "a1", "index", "lets", "1", "42", '"s"', '""', '"a b"', "true", "false", "NULL",
+           "in-flight", "out-dir", "not_x", "as1", "is-", "map-reduce"]
 
 
 def model_tokens(m):
@@ -194,7 +195,8 @@ def run(tier, seed):
         sources.append(("string", "let s = " + encode_str(v, rng) + ";"))
     # token sequences with two random layouts each
     lay = Layout(rng)
-    pool = [("BAREWORD", w) for w in ["x", "foo", "let", "in", "is", "not", "select", "a-b", "index"]] + \
+    pool = [("BAREWORD", w) for w in ["x", "foo", "let", "in", "is", "not", "select", "a-b", "index", "in-flight", "as-of", "not-before",
+                                        "out-dir", "let-x", "fail_x", "func1", "TRACE-x", "import-map"]] + \
            [("DIGIT", d) for d in ["0", "1", "42"]] + [("PUNCT", p) for p in lits if not p[0].isalpha() and p != "NULL"] + \
            [("BOOLEAN", "true"), ("BOOLEAN", "false"), ("EMPTY", "NULL"), ("QUOTED", "s"), ("QUOTED", "é\n\"q\\"), ("QUOTED", "")]
     seqs = []
